@@ -3,7 +3,7 @@
 pub fn variants(cfg: &Cfg, k: usize, thorough: bool) -> Vec<(ValueClass, PromiseClass, bool, usize)> {
     // (value class, promise class, seeded, rng-kind index); a rotating pairwise sample in the quick tier,
     // a denser one in the thorough tier. Seed only applies when m == 1.
-    let count = if thorough { 12 } else { 6 };
+    let count = if thorough { 24 } else { 6 };
     (0..count)
         .map(|i| {
             let vc = VALUE_CLASSES[(i + k) % VALUE_CLASSES.len()];
@@ -18,7 +18,7 @@ pub fn variants(cfg: &Cfg, k: usize, thorough: bool) -> Vec<(ValueClass, Promise
 pub fn run(ctx: &Ctx, rep: &mut Report) {
     let (max_mn, max_ncap) = <P as Gx>::bounds(&ctx.tier);
     let mut cfgs = lattice_systematic(max_mn, max_ncap, ctx.thorough());
-    let nrand = if ctx.thorough() { 200 } else { 24 };
+    let nrand = if ctx.thorough() { 1500 } else { 24 };
     cfgs.extend(lattice_random(&mut ctx.rng(&format!("c01-lattice-{GROUP}"), 0), nrand, max_mn, max_ncap));
     // Ristretto is ~100x more expensive per case than FmPoint: thin the variants there
     let stride = if <P as Gx>::IS_FM { 1 } else if ctx.thorough() { 3 } else { 2 };
